@@ -15,6 +15,11 @@ pub broadcast axiom fn axiom_hex_injective(a: Hash, b: Hash)
 pub struct PublicKey { pub b: [u8; 33] }
 
 pub struct Bolt11Invoice { pub _p: u8 }
+impl PartialEq for Bolt11Invoice {
+    // structural equality (lightning_invoice derives PartialEq on the parsed invoice)
+    #[verifier::external_body]
+    fn eq(&self, o: &Self) -> (r: bool) ensures r == (*self == *o) { unimplemented!() }
+}
 impl Bolt11Invoice {
     pub uninterp spec fn hash_spec(&self) -> Hash;
     pub uninterp spec fn amount_spec(&self) -> Option<u64>;
